@@ -52,12 +52,24 @@ def run(ctx):
 
     obs = []
 
+    def wrongs(v, w, extra=()):
+        """values a tolerant verifier might take for v: one bit off, the octets or the bits in the other order, the halves
+        swapped, the complement, the neighbours, v with another mask - never v itself"""
+        full = (1 << w) - 1
+        nb = (w + 7) // 8
+        out = {v ^ (1 << rng.randrange(w)), v ^ 1, v ^ (1 << (w - 1)), full ^ v, (v + 1) & full, (v - 1) & full,
+               int(format(v, f"0{w}b")[::-1], 2), int.from_bytes(v.to_bytes(nb, "big"), "little"),
+               ((v << (w // 2)) | (v >> (w - w // 2))) & full}
+        out |= {v ^ x for x in extra if x}
+        out.discard(v)
+        return sorted(out)
+
     def observe(w, bits):
         bw, tb = calcs[w]
         be = bitarray(list(bits), endian="big")
         le = bitarray(list(bits), endian="little")
         cval = ba2int(bw.calculate_checksum(be.copy()))
-        others = [cval ^ 1, cval ^ (1 << (w - 1)), cval + (1 << w), cval | (1 << (w + 5)), cval + (1 << 40)]
+        others = [cval ^ 1, cval ^ (1 << (w - 1)), cval + (1 << w), cval | (1 << (w + 5)), cval + (1 << 40)] + wrongs(cval, w)
         verify_same = bool(bw.verify_checksum(be.copy(), cval)) and bool(tb.verify_checksum(be.copy(), cval))
         verify_other = any(bool(c.verify_checksum(be.copy(), x)) for c in (bw, tb) for x in others)
         obs.append({"w": w, "n": len(bits), "bits": pack(bits), "verify_same": verify_same, "verify_other": verify_other,
@@ -135,7 +147,8 @@ def run(ctx):
             buf = bytearray(data) if rng.random() < 0.5 else data
             CRC16.calculate(buf, m)
             out = CRC16.calculate(buf, m)
-            fe16(data, m.value, out, CRC16.check(buf, out, m), CRC16.check(buf, out ^ (1 << rng.randrange(16)), m))
+            fe16(data, m.value, out, CRC16.check(buf, out, m),
+                 any(CRC16.check(buf, x, m) for x in wrongs(out, 16, extra=[m.value] + [k.value for k in masks if k is not m][:2])))
             if bytes(buf) != data:
                 fe16(data, m.value, out ^ 1, False, True)
         else:
@@ -144,7 +157,7 @@ def run(ctx):
             buf = bytearray(data) if rng.random() < 0.5 else data
             CRC32.calculate(buf)
             out = CRC32.calculate(buf)
-            fe32(data, out, CRC32.check(buf, out), CRC32.check(buf, out ^ (1 << rng.randrange(32))))
+            fe32(data, out, CRC32.check(buf, out), any(CRC32.check(buf, x) for x in wrongs(out, 32)))
             if bytes(buf) != data:
                 fe32(data, (out + 1) & 0xFFFFFFFF, False, True)      # recorded as a wrong checksum: the buffer was altered
     for f in fe:
